@@ -236,6 +236,10 @@ def run(tier):
     st.merge(common.merge_all(common.run_sharded(_shard, {'depth': 6 if tier == 'quick' else 7, 'mindepth': 4, 'alphabet': 'unit'})))
     st.merge(common.merge_all(common.run_sharded(_shard, {'depth': 3 if tier == 'quick' else 4, 'mindepth': 2, 'alphabet': 'wide'})))
     st.merge(common.merge_all(common.run_sharded(_shard_prefixed, {'tier': tier})))
+    from mc import ea_o
+    so = ea_o.run_shard('mc.props.c11', '_shard', {'depth': 2})          # all histories of length <= 2 once more under python -O
+    st.merge(so)
+    st.notes.extend(so.notes)
     deep = None
     if tier == 'thorough':
         # one level deeper over a reduced alphabet (positions 0..4, chunks of length 0..2): 20 operations, depth 5
@@ -251,7 +255,7 @@ def run(tier):
         'evaluations': st.n.get('histories', 0),
         'distinct_nontrivial': st.count('states'),
         'rule': 'all operation histories of length 1..%d over %d operations (insert at 0..6 of 4 chunks incl. the empty one, append x4, '
-                'extend x4), plus all histories of length 4..%d over 8 operations (one-byte chunks at 0..5: many fragments) and of length 2..%d over 22 operations '
+                'extend x4; those of length <=2 once more in child interpreters started with -O), plus all histories of length 4..%d over 8 operations (one-byte chunks at 0..5: many fragments) and of length 2..%d over 22 operations '
                 '(chunks of length 1/4/5/8 at 0/4/8/12/16), plus every history of length <=%d placed after 7..65 forward appends, each executed on a fresh real Fragments; distinct = canonical (sparse map, extent, cursor)' % (
                     depth, nops, 6 if tier == 'quick' else 7, 3 if tier == 'quick' else 4, 2 if tier == 'quick' else 3),
         'exhaustive': True,
@@ -261,7 +265,7 @@ def run(tier):
         'samples': st.samples,
         'explanation': 'every explored history IS an execution of the implementation; the model is a dict position->byte',
     }
-    return {'stats': st, 'coverage': cov,
+    return {'stats': st, 'coverage': cov, 'harness_errors': [n for n in st.notes if n.startswith('HARNESS')],
             'assumptions': ['positions >= 0', 'fill byte is the default "."',
                             'for an EMPTY chunk the statement only fixes the extent: raising is tolerated, the cursor is not compared']}
 
